@@ -268,7 +268,7 @@ def run(tier):
 
     # (1) design level: exhaustive model check
     if thorough:
-        cfg = _cfg("raft_mc.cfg", "{0, 1, 2}", 2, 2, 2, 2, 8, 2, 2)
+        cfg = _cfg("raft_mc.cfg", "{0, 1}", 2, 2, 2, 2, 8, 2, 2)
         need = WITNESSES + ["conflicting-logs"]
     else:
         cfg = _cfg("raft_mc.cfg", "{0, 1}", 2, 2, 2, 1, 8, 2, 2)
